@@ -536,7 +536,7 @@ func TestVerif_C16(t *testing.T) {
 		names = sortedNames
 		seqLen := vx.Pick(c, 2, 3)
 		blkLen := 4
-		c.Rule(fmt.Sprintf("sessions over %d raw frame templates (valid frames of every type and single-field corruptions: lengths, stream ids, flags, padding, HPACK garbage, limits): (frames) valid preface+SETTINGS then every sequence of <=%d templates, item by item and as one burst followed by an immediate hang-up, handler writing / handler blocking; (truncate) every sequence of <=%d templates cut at every byte offset of its last template; (preface) no / short / wrong / split preface and missing SETTINGS before every template; (stuck-writer) every sequence of <=%d templates of a 12-template stream subset while the client does not read, for each of the four write schedulers, then the client reads again; (floods) %d x PING / SETTINGS / HEADERS+RST_STREAM / empty CONTINUATION with reading and non-reading client on all four schedulers; each session on a fresh real server in its own synctest bubble; non-trivial = session ran to its end-of-session probe", len(names), seqLen, vx.Pick(c, 1, 2), blkLen, c16FloodN))
+		c.Rule(fmt.Sprintf("sessions over %d raw frame templates (valid frames of every type and single-field corruptions: lengths, stream ids, flags, padding, HPACK garbage, limits): (frames) valid preface+SETTINGS then every sequence of <=%d templates, item by item and as one burst followed by an immediate hang-up, handler writing / handler blocking; (truncate) every sequence of <=%d templates cut at every byte offset of its last template; (preface) no / short / wrong / split preface and missing SETTINGS before every template; (stuck-writer) every sequence of <=%d templates of a 12-template stream subset while the client does not read, for each of the four write schedulers (quick: length-4 sessions on the RFC 7540 scheduler only), then the client reads again; (floods) %d x PING / SETTINGS / HEADERS+RST_STREAM / empty CONTINUATION with reading and non-reading client on all four schedulers; each session on a fresh real server in its own synctest bubble; non-trivial = session ran to its end-of-session probe", len(names), seqLen, vx.Pick(c, 1, 2), blkLen, c16FloodN))
 		c.Assume("\"bounded time\" is 30 s of synctest fake time; a session that stops in the middle of a frame may leave the server waiting for the rest (no read timeout is configured), which counts as serving; after GOAWAY without error the server is still required to answer PING or to have closed")
 		c.Assume("panics on the serve goroutine are observed through the package's testHookOnPanic (the connection is torn down instead of the process); panics on any other goroutine kill the shard and are attributed by the driver (crash_is_violation)")
 		opts := vx.Opts{Serial: true, Crumb: true}
@@ -546,7 +546,7 @@ func TestVerif_C16(t *testing.T) {
 			yield := c15Yield(c, yield0)
 			for n := 1; n <= blkLen; n++ {
 				for _, sc := range scheds {
-					if c.Quick() && n == blkLen && (sc == "rr" || sc == "rand") {
+					if c.Quick() && n == blkLen && sc != "7540" {
 						continue
 					}
 					ok := vx.Strings(c16StreamItems, n, n, func(items []string) bool {
@@ -607,7 +607,7 @@ func TestVerif_C16(t *testing.T) {
 						if !yield(c16Case{Cfg: cfg, Pre: "ok", Items: items}) {
 							return false
 						}
-						if cfg == "-hw" && n <= 2 {
+						if cfg == "-hw" && n <= vx.Pick(c, 1, 2) {
 							return yield(c16Case{Cfg: cfg, Pre: "ok", Items: items, Burst: true})
 						}
 						return true
